@@ -10,6 +10,7 @@ import (
 	"runtime/debug"
 	"sort"
 	"sync"
+	"sync/atomic"
 	"time"
 
 	"github.com/cometbft/cometbft/abci/types"
@@ -94,6 +95,7 @@ type Replica struct {
 
 	Height   int64 // last committed height (0 = only InitChain done)
 	boots    int
+	stage    atomic.Value // string: the ABCI call in progress (for watchdogs)
 	upgStore *persistent.CommonStore
 	upgMgr   upgrade.Backend
 	// RegOrder lists the app names in the order they were registered at the last boot.
@@ -423,6 +425,17 @@ func (r *Replica) Restart(newCfg *ReplicaConfig) error {
 	return nil
 }
 
+// CurrentCall names the ABCI call this replica is executing right now ("" if none), e.g.
+// "DeliverTx[3]" or "Commit"; safe to call from another goroutine (for watchdogs).
+func (r *Replica) CurrentCall() string {
+	if v, ok := r.stage.Load().(string); ok {
+		return v
+	}
+	return ""
+}
+
+func (r *Replica) enter(call string) { r.stage.Store(call) }
+
 // AppHash returns the committed state root (nil before the first block).
 func (r *Replica) AppHash() []byte {
 	return r.Mux.Info(types.RequestInfo{}).LastBlockAppHash
@@ -450,6 +463,8 @@ func (r *Replica) Propose(in *BlockInput, candidates [][]byte) (txs [][]byte, er
 	for _, v := range in.LastCommit.Votes {
 		ext.Votes = append(ext.Votes, types.ExtendedVoteInfo{Validator: v.Validator, SignedLastBlock: v.SignedLastBlock})
 	}
+	r.enter("PrepareProposal")
+	defer r.enter("")
 	resp := r.Mux.PrepareProposal(types.RequestPrepareProposal{
 		MaxTxBytes:      int64(r.G.Doc.Consensus.Parameters.MaxBlockSize),
 		Txs:             candidates,
@@ -471,6 +486,8 @@ func (r *Replica) ProcessProposal(in *BlockInput, txs [][]byte) (accept bool, er
 	if hash == nil {
 		hash = BlockHash(in, txs)
 	}
+	r.enter("ProcessProposal")
+	defer r.enter("")
 	resp := r.Mux.ProcessProposal(types.RequestProcessProposal{
 		Txs:                txs,
 		ProposedLastCommit: in.LastCommit,
@@ -548,17 +565,22 @@ func (r *Replica) finalize(in *BlockInput, txs [][]byte) (res *BlockResult, err 
 	}
 	res = &BlockResult{Height: in.Height, MetaTx: MetaBody(txs)}
 
+	defer r.enter("")
 	r.abciMu.Lock()
-	bb := r.Mux.BeginBlock(types.RequestBeginBlock{
-		Hash:                hash,
-		Header:              in.header(),
-		LastCommitInfo:      in.LastCommit,
-		ByzantineValidators: in.Misbehavior,
-	})
-	r.abciMu.Unlock()
+	r.enter("BeginBlock")
+	bb := func() types.ResponseBeginBlock {
+		defer r.abciMu.Unlock() // also when BeginBlock panics (the panic is returned as an error)
+		return r.Mux.BeginBlock(types.RequestBeginBlock{
+			Hash:                hash,
+			Header:              in.header(),
+			LastCommitInfo:      in.LastCommit,
+			ByzantineValidators: in.Misbehavior,
+		})
+	}()
 	res.BeginEvents = convEvents(bb.Events)
 
-	for _, tx := range txs {
+	for k, tx := range txs {
+		r.enter(fmt.Sprintf("DeliverTx[%d]", k))
 		// The lock is released between the calls so that a concurrent CheckTx can
 		// interleave exactly as it can with CometBFT's local ABCI client.
 		r.abciMu.Lock()
@@ -572,6 +594,7 @@ func (r *Replica) finalize(in *BlockInput, txs [][]byte) (res *BlockResult, err 
 		})
 	}
 
+	r.enter("EndBlock")
 	r.abciMu.Lock()
 	eb := func() types.ResponseEndBlock {
 		defer r.abciMu.Unlock()
@@ -589,6 +612,7 @@ func (r *Replica) finalize(in *BlockInput, txs [][]byte) (res *BlockResult, err 
 		return res.ValidatorUpdates[i].Power < res.ValidatorUpdates[j].Power
 	})
 
+	r.enter("Commit")
 	r.abciMu.Lock()
 	cm := func() types.ResponseCommit {
 		defer r.abciMu.Unlock()
